@@ -30,7 +30,7 @@ def get_corpus(ctx, n=None, tag=None, **kw):
                 if not bad or attempt == 5 or len(skipped) + len(bad) > (len(by_id) * 2) // 3:
                     raise
                 for pid in bad:
-                    m = re.search(r"(error[^\n]*\n(?:[^\n]*\n){0,8}?[^\n]*%s_mod\.rs[^\n]*\n(?:[^\n]*\n){0,10})" % pid, e.out)
+                    m = re.search(r"(error[^\n]*\n(?:[^\n]*\n){0,8}?[^\n]*%s_mod\.rs[^\n]*\n(?:(?!error|warning)[^\n]*\n){0,60})" % pid, e.out)
                     err = m.group(1) if m else ""
                     # A valid program that stops compiling is a failing input of the properties that speak about acceptance / generation
                     # for every program, and of the property whose generated items the compiler complains about; the other checks go on
